@@ -174,7 +174,7 @@ fn mask_time(s: &str) -> String {
 pub fn props_of(case: &Value) -> Vec<&'static str> {
     if case["status"].as_str() != Some("ok") { return vec![]; }
     let slice = case["slice"].as_str().unwrap_or("");
-    if slice == "time" { return vec!["X01"]; }
+    if slice == "time" { return vec!["X01", "C05"]; }
     let mut v = vec![owner_of(slice), "C05", "C11", "C10"];
     if slice == "alias" { v.push("C08"); }
     if slice != "print" { v.push("C04"); }
